@@ -63,6 +63,8 @@ type target struct {
 	opaque   map[string]string // source text -> Coq term
 	only     map[string]bool   // if set: assignments to other receiver fields are ignored
 	from     func(stmts []ast.Stmt) []ast.Stmt
+	setters    map[string]string // field name -> oracle (value -> field value -> value): v.f = e on a LOCAL value v rebinds v
+	inlineVars bool // package-level variables that are not binders and are never assigned are read as their initialisers
 	cond     func(fd *ast.FuncDecl) ast.Expr // translate one condition instead of a body
 	comment  string
 	fallback string
@@ -625,6 +627,23 @@ func (x *tr) sprintf(c *ast.CallExpr) string {
 	}
 	tv, ok := x.p.TypesInfo.Types[c.Args[0]]
 	if !ok || tv.Value == nil || tv.Value.Kind() != constant.String {
+		if x.t.strict && x.kindOf(c.Args[0]) == "bytes" {
+			// a format computed at run time (e.g. built from a name): the format is DATA that Sprintf interprets -
+			// Dec.go_sprintf, partial (None = a verb or argument combination that is not modelled)
+			f := x.expr(c.Args[0])
+			var as []string
+			for _, a := range c.Args[1:] {
+				switch k := x.kindOf(a); {
+				case k == "Z":
+					as = append(as, "SInt "+paren(x.expr(a)))
+				case k == "bytes" && types.TypeString(x.p.TypesInfo.TypeOf(a), x.qual) == "string":
+					as = append(as, "SStr "+paren(x.expr(a)))
+				default:
+					x.bad(c, "Sprintf argument outside the fragment")
+				}
+			}
+			return x.partial("go_sprintf " + paren(f) + " [" + strings.Join(as, "; ") + "]")
+		}
 		x.bad(c, "Sprintf with a format that is not a constant")
 	}
 	f := constant.StringVal(tv.Value)
@@ -749,6 +768,15 @@ func (x *tr) expr(e ast.Expr) string {
 		}
 		if obj := x.p.TypesInfo.Uses[z]; obj != nil {
 			if v, ok := obj.(*types.Var); ok && v.Parent() == x.p.Types.Scope() {
+				if x.t.strict && x.t.inlineVars && x.bound["g_"+z.Name] == 0 {
+					// a package-level variable the target does not take as an input: if it has an initialiser and nothing
+					// in the package ever assigns it (or takes its address, or writes one of its elements), it stands for
+					// that initialiser
+					if init := varInit(x.p, z.Name); init != nil && !assignedInPackage(x.p, v) {
+						x.notes = append(x.notes, "package variable never assigned, read as its initialiser: "+z.Name)
+						return x.expr(init)
+					}
+				}
 				return x.use("g_" + z.Name) // package-level variable
 			}
 			if x.t.strict {
@@ -969,6 +997,10 @@ func (x *tr) expr(e ast.Expr) string {
 				return x.partial("sl_range " + b + " " + paren(x.expr(z.Low)) + " " + paren(x.expr(z.High)))
 			}
 		}
+		// l[a:] on a list (a slice whose capacity does not matter): panics outside 0..len(l)
+		if x.t.strict && z.Low != nil && z.High == nil && !z.Slice3 && strings.HasPrefix(x.kindOf(z.X), "list ") && x.kindOf(z.Low) == "Z" {
+			return x.partial("list_from " + paren(x.expr(z.X)) + " " + paren(x.expr(z.Low)))
+		}
 		// t[:n] / t[n:] on a string: panics outside 0..len(t)
 		if x.t.strict && z.Low == nil && z.High != nil && !z.Slice3 && x.kindOf(z.X) == "bytes" && x.kindOf(z.High) == "Z" {
 			return x.partial("str_prefix " + paren(x.expr(z.X)) + " " + paren(x.expr(z.High)))
@@ -1130,6 +1162,9 @@ func (x *tr) expr(e ast.Expr) string {
 			}
 			if tv, ok := x.p.TypesInfo.Types[z.Fun]; ok && tv.IsType() && len(z.Args) == 1 && x.kindOf(z.Args[0]) == "gslice" && x.coqType(tv.Type) == "bytes" {
 				return "(sl_bytes " + x.expr(z.Args[0]) + ")" // string(b)
+			}
+			if tv, ok := x.p.TypesInfo.Types[z.Fun]; ok && tv.IsType() && len(z.Args) == 1 && x.t.strict && x.kindOf(z.Args[0]) == "bytes" && x.coqType(tv.Type) == "bytes" {
+				return x.expr(z.Args[0]) // string(b) / []byte(s) where both are byte strings of the model (a copy: values)
 			}
 			if tv, ok := x.p.TypesInfo.Types[z.Fun]; ok && tv.IsType() && len(z.Args) == 1 {
 				// conversion T(x) between integer types: the identity on Z (DESIGN.md 2.1: int, Level,
@@ -1529,6 +1564,10 @@ func (x *tr) effectCall(c *ast.CallExpr, cs callSpec, lhs []string, n ast.Node, 
 	amark := len(x.pending)
 	args := make([]string, len(c.Args))
 	for i, a := range c.Args {
+		if cs.lazy && !strings.Contains(cs.ev+cs.res+cs.state, fmt.Sprintf("%%%d", i)) {
+			x.notes = append(x.notes, "argument not kept by the model (declared): "+clip(src(a)))
+			continue // a lazy declaration: the arguments its rendering does not mention feed something the model does not keep
+		}
 		args[i] = x.expr(a) // every argument must be in the fragment, also the ones the rendering drops
 	}
 	if len(x.pending) > amark {
@@ -1900,14 +1939,44 @@ func (x *tr) seq(stmts []ast.Stmt, k func() string) string {
 				}
 				if cs, ok := x.t.calls[key]; ok {
 					if cs.tail != "" {
-						x.checkArgs(c)
+						if !strings.Contains(cs.tail, "%") {
+							x.checkArgs(c)
+						}
 						if len(x.loops) > 0 {
 							x.bad(z, "tail call inside a loop")
 						}
 						if after := tail(); after != x.t.final {
 							x.bad(z, "call declared as a tail call is followed by more work")
 						}
-						return "(" + cs.tail + " " + strings.Join(x.t.effects, " ") + ")"
+						head := cs.tail
+						if strings.Contains(head, "%") {
+							// the constructor takes the arguments of the call (os.Exit(code), s.log1(lvl, msg, args...)): operations
+							// among them that can panic are hoisted in front; a variadic call without variadic arguments passes nil
+							if c.Ellipsis != token.NoPos && !cs.spread {
+								x.bad(c, "call with a spread argument")
+							}
+							mark := len(x.pending)
+							var args []string
+							for _, a := range c.Args {
+								args = append(args, paren(x.expr(a)))
+							}
+							if sig, ok := x.p.TypesInfo.TypeOf(c.Fun).(*types.Signature); ok && sig.Variadic() {
+								if c.Ellipsis == token.NoPos && len(c.Args) > sig.Params().Len()-1 {
+									x.bad(c, "variadic call with listed variadic arguments")
+								}
+								if len(c.Args) == sig.Params().Len()-1 {
+									args = append(args, "[]")
+								}
+							}
+							cc := *c
+							for len(cc.Args) < len(args) {
+								cc.Args = append(append([]ast.Expr{}, cc.Args...), c.Args[0]) // (positions only: the texts come from args)
+							}
+							return x.hoistStmt(mark, func() string {
+								return "(" + x.fillWith(head, &cc, args) + " " + strings.Join(x.t.effects, " ") + ")"
+							})
+						}
+						return "(" + head + " " + strings.Join(x.t.effects, " ") + ")"
 					}
 					return x.effectCall(c, cs, nil, z, tail)
 				}
@@ -2071,6 +2140,73 @@ func (x *tr) assignStrict(z *ast.AssignStmt, tail func() string) string {
 			x.closed[obj] = true
 			x.notes = append(x.notes, "closure (declared): "+clip(src(z)))
 			return tail()
+		}
+	}
+	// v.f = e on a local value v (not the receiver) whose field f has a declared setter: v is rebound to (set_f v e);
+	// all right-hand sides are evaluated first, as in Go
+	if z.Tok == token.ASSIGN && len(z.Lhs) == len(z.Rhs) && len(x.t.setters) > 0 {
+		setterOf := func(l ast.Expr) (string, *ast.Ident) {
+			if se, ok := l.(*ast.SelectorExpr); ok {
+				if id, ok := se.X.(*ast.Ident); ok && id.Name != x.recv {
+					if f, ok := x.t.setters[se.Sel.Name]; ok {
+						if v, isVar := x.p.TypesInfo.ObjectOf(id).(*types.Var); isVar && v.Parent() != x.p.Types.Scope() {
+							return f, id
+						}
+					}
+				}
+			}
+			return "", nil
+		}
+		any := false
+		for _, l := range z.Lhs {
+			if f, _ := setterOf(l); f != "" {
+				any = true
+			}
+		}
+		if any {
+			mark := len(x.pending)
+			var vals, names, sets []string
+			for i, r := range z.Rhs {
+				vals = append(vals, x.expr(r))
+				if f, id := setterOf(z.Lhs[i]); f != "" {
+					names = append(names, x.objName(x.p.TypesInfo.ObjectOf(id), id.Name))
+					sets = append(sets, x.use(f))
+				} else {
+					nm, ok := x.lhsName(z.Lhs[i])
+					if !ok {
+						x.bad(z, "assignment target outside the fragment")
+					}
+					x.stateWrite(z.Lhs[i], nm)
+					names = append(names, nm)
+					sets = append(sets, "")
+				}
+			}
+			isId := func(c byte) bool {
+				return c == '_' || c == '\'' || c >= '0' && c <= '9' || c >= 'a' && c <= 'z' || c >= 'A' && c <= 'Z'
+			}
+			for _, nm := range names {
+				for _, v := range vals {
+					for i := 0; i+len(nm) <= len(v); i++ {
+						if v[i:i+len(nm)] == nm && (i == 0 || !isId(v[i-1])) && (i+len(nm) == len(v) || !isId(v[i+len(nm)])) {
+							x.bad(z, "parallel assignment whose right-hand sides read an assigned variable")
+						}
+					}
+				}
+			}
+			return x.hoistStmt(mark, func() string {
+				var f func(i int) string
+				f = func(i int) string {
+					if i == len(names) {
+						return tail()
+					}
+					rhs := vals[i]
+					if sets[i] != "" {
+						rhs = fmt.Sprintf("%s %s %s", sets[i], x.use(names[i]), paren(vals[i]))
+					}
+					return x.let(names[i], rhs, func() string { return f(i + 1) })
+				}
+				return f(0)
+			})
 		}
 	}
 	// call with a declared rendering on the right
@@ -3192,4 +3328,65 @@ func reindent(body string) string {
 		}
 	}
 	return strings.Join(out, "\n")
+}
+
+// assignedInPackage: is the package-level variable v ever written after its declaration (assigned, incremented,
+// an element or field of it assigned, its address taken, ranged into)?
+func assignedInPackage(p *packages.Package, v *types.Var) bool {
+	root := func(e ast.Expr) *ast.Ident {
+		for {
+			switch z := e.(type) {
+			case *ast.Ident:
+				return z
+			case *ast.IndexExpr:
+				e = z.X
+			case *ast.SelectorExpr:
+				e = z.X
+			case *ast.StarExpr:
+				e = z.X
+			case *ast.ParenExpr:
+				e = z.X
+			case *ast.SliceExpr:
+				e = z.X
+			default:
+				return nil
+			}
+		}
+	}
+	is := func(e ast.Expr) bool {
+		id := root(e)
+		return id != nil && p.TypesInfo.ObjectOf(id) == v
+	}
+	found := false
+	for _, f := range p.Syntax {
+		ast.Inspect(f, func(n ast.Node) bool {
+			switch z := n.(type) {
+			case *ast.AssignStmt:
+				for _, l := range z.Lhs {
+					if is(l) {
+						found = true
+					}
+				}
+			case *ast.IncDecStmt:
+				if is(z.X) {
+					found = true
+				}
+			case *ast.UnaryExpr:
+				if z.Op == token.AND && is(z.X) {
+					found = true
+				}
+			case *ast.RangeStmt:
+				if (z.Key != nil && is(z.Key)) || (z.Value != nil && is(z.Value)) {
+					found = true
+				}
+			case *ast.CallExpr:
+				// copy(v, ..) / append(v[:0], ..) write through the slice
+				if id, ok := z.Fun.(*ast.Ident); ok && (id.Name == "copy" || id.Name == "append") && len(z.Args) > 0 && is(z.Args[0]) {
+					found = true
+				}
+			}
+			return !found
+		})
+	}
+	return found
 }
